@@ -291,6 +291,7 @@ func (t *TopK) ReadFrom(stream io.Reader) (int64, error) {
 			return 0, err
 		}
 		*heap = append(*heap, heapElement{value: string(b), frequency: frequency})
+		numBytesHeap += int64(len(b) + 2*binary.Size(uint64(0)))
 	}
 	t.k = uint(k)
 	t.accuracy = accuracy
